@@ -398,6 +398,23 @@ def to_worklist(ctx) -> None:
     if len(maps) > 1:
         # the map may be created under one name and handed on under another (helper result): keep the creating definition
         maps = [n for n in maps if not isinstance(n.ast.value, ast.Name)] or maps
+    if not maps:
+        # the map kept on the object: it must be created anew by every execution, otherwise a second to_worklist() on the same
+        # plan (EVO, then Fluent) finds the first run's entries and performs every serial transfer once more
+        for cs in fv.calls():
+            fn = cs.call.func
+            if isinstance(fn, ast.Attribute) and fn.attr == "append" and isinstance(fn.value, ast.Subscript) and isinstance(fn.value.value, ast.Attribute) and is_name(fn.value.value.value, selfn):
+                attr = fn.value.value.attr
+                loops_ = [h for h in fv.cfg.enclosing_loops(cs.node) if fv.cfg.nodes[h].kind == "for" and attr_of_name(fv.cfg.nodes[h].ast.iter, selfn, "instructions")]
+                if not loops_:
+                    continue
+                resets = [n for n in fv.cfg.nodes if n.kind == "stmt" and isinstance(n.ast, (ast.Assign, ast.AnnAssign)) and attr_of_name(n.ast.targets[0] if isinstance(n.ast, ast.Assign) else n.ast.target, selfn, attr)
+                          and fv.cfg.dominates(n.id, loops_[0])]
+                clears = [c2 for c2 in fv.calls() if isinstance(c2.call.func, ast.Attribute) and c2.call.func.attr == "clear" and attr_of_name(c2.call.func.value, selfn, attr) and fv.cfg.dominates(c2.node, loops_[0])]
+                if not resets and not clears:
+                    ctx.rep.refuted(rule, f"{f.qualname}/serial-map", f"the (target column, volumes) entries are appended to `self.{attr}`, which is not created anew (or cleared) by to_worklist: executing the same plan a second "
+                                    "time (on another worklist / device) finds the entries of the first run and performs every serial transfer twice", where=f.where(cs.call))
+                    return
     if len(maps) != 1:
         ctx.rep.inconclusive(rule, f"{f.qualname}/serial-map", f"serial-dilution map not found ({len(maps)})")
         return
